@@ -111,7 +111,7 @@ def _detect_one(name):
         shutil.rmtree(tmp, ignore_errors=True)
 
 
-def detect(names):
+def detect(names, write=False):
     names = names or sorted(os.listdir(SEEDED))
     names = [n for n in names if os.path.exists(os.path.join(SEEDED, n, "patch.diff"))]
     out = {}
@@ -136,6 +136,20 @@ def detect(names):
         for p in fires + unds:
             for ln in res[p]["viol"] + res[p]["und"]:
                 print(f"        {p}: {ln[:200]}")
+    if write:
+        table = {}
+        for name in names:
+            res = out[name]
+            if "_error" in res:
+                continue
+            mp = os.path.join(SEEDED, name, "meta.json")
+            meta = json.load(open(mp)) if os.path.exists(mp) else {}
+            table[name] = {"target": meta.get("property", "?"),
+                           "fires": sorted(p for p, r in res.items() if r["code"] == 1),
+                           "undecided": sorted(p for p, r in res.items() if r["code"] == 2),
+                           "rules": sorted({v.split(" ")[0] for p, r in res.items() if r["code"] == 1 for v in r["viol"]})}
+        with open(os.path.join(SEEDED, "DETECTION.json"), "w") as f:
+            json.dump(table, f, indent=1, sort_keys=True)
     return out
 
 
@@ -151,7 +165,8 @@ def main():
         for d in args:
             do_import(d)
     elif cmd == "detect":
-        detect(args)
+        write = "--write" in args
+        detect([a for a in args if a != "--write"], write)
     return 0
 
 
